@@ -380,8 +380,10 @@ func c19FlushOrder(r *core.Report) {
 	// slots walk upward: an increment of currentSlot in a for loop bounded by endSlot
 	inc := false
 	ast.Inspect(f.Body, func(n ast.Node) bool {
-		if s, ok := n.(*ast.IncDecStmt); ok && s.Tok == token.INC && strings.Contains(core.ExprStr(s.X), "currentSlot") {
-			inc = true
+		if st, isStmt := n.(ast.Stmt); isStmt {
+			if place, isInc := addsOne(info, st); isInc && strings.Contains(core.ExprStr(place), "currentSlot") {
+				inc = true
+			}
 		}
 		return true
 	})
@@ -395,7 +397,11 @@ func c19FlushOrder(r *core.Report) {
 	okLoop := inc && loop != nil
 	if okLoop {
 		be, ok := core.Unparen(loop.Cond).(*ast.BinaryExpr)
-		okLoop = ok && (be.Op == token.LEQ || be.Op == token.LSS) && strings.Contains(core.ExprStr(be.X), "currentSlot")
+		if ok {
+			_, _, op, isCmp := orientCmpBy(be, func(e ast.Expr) bool { return strings.Contains(core.ExprStr(e), "currentSlot") })
+			ok = isCmp && (op == token.LEQ || op == token.LSS)
+		}
+		okLoop = ok
 	}
 	r.Check(okLoop, rule, f.Key+"#slots-ascending", posP(r, f.Pos()), "slots are flushed from the start slot upward", "the flush loop does not walk currentSlot upward to endSlot")
 }
